@@ -369,14 +369,14 @@ pub fn check(ctx: &Ctx) -> Check {
         Box::new(RandomPart {
             name: "lib-relations",
             rule: "one-axis (n 3..300), two-axis (unequal lengths, and 3x3), 3- and 4-axis spectra with pairwise different lengths 2..6, non-negative random values: f3/f4 == the documented linear combinations of f2 over the two-population marginals (harness marginalization) of the normalised spectrum; fold with fill 0 (harness model and sfs's own fold) leaves pi, theta, S, Tajima's D, pi_xy, f2, f3, f4, Fst, KING, R0, R1 unchanged; replacing the two monomorphic entries leaves everything except sum/f2/f3/f4 unchanged; transposition leaves f2, Fst, pi_xy, KING, R0, R1 unchanged; scaling by 2^k (exact) and by an arbitrary c > 0 leaves f2/f3/f4/Fst/KING/R0/R1 unchanged and scales sum/S/pi/pi_xy/theta by c; non-trivial = >=4 non-zero interior cells and both monomorphic entries changed by a factor >= 2",
-            cases: ctx.tier.pick(40_000, 600_000),
+            cases: ctx.tier.pick(40_000, 3_000_000),
             strategy: Box::new(|| strategy().boxed()),
             eval: Box::new(eval),
         }),
         Box::new(RandomPart {
             name: "cli-relations",
             rule: "integer spectra through `sfs fold --fill zero | sfs stat` vs `sfs stat` directly, the scaling relation and the transposition relation through `sfs stat --precision 12` (the normalisation in front of f2/f3/f4/Fst lives in the CLI)",
-            cases: ctx.tier.pick(800, 8000),
+            cases: ctx.tier.pick(800, 20_000),
             strategy: Box::new(|| cli_strategy().boxed()),
             eval: Box::new(eval_cli),
         }),
